@@ -5,6 +5,12 @@
      normal     100 s apart                      allequal   every permanode at the same instant
      pre1970    all before the unix epoch        span1970   -100 s, -1 ns, +100 s around the unix epoch
      subsec     1 ns, 2 ns, 999999999 ns in the same second      presub   the same, before the epoch
+     zoned      the instants of "normal", always with dateCreated values written with different UTC offsets
+   Option `zones` (always on in class zoned, on in about 40 % of the other worlds): the dateCreated value of
+   permanode i spells its instant with offset Z, +02:00 or +05:30 (i mod 3), so the members of a tie group
+   carry the SAME instant in different time zones (time.Time values with different Location pointers).
+   The model's times stay instants: equal instants tie, the blobref breaks the tie.  Claim dates cannot
+   carry a zone (index rows are always written in UTC), only the time-valued attributes can.
    Options vary with the world: some permanodes carry the tag the constraint asks for (odd ones), one
    may be deleted, the first may carry a later claim that is deleted (must not move its modtime), and in
    created mode "dc" every permanode has a dateCreated attribute whose order is the REVERSE of the
@@ -20,27 +26,29 @@ VARIABLES n, cls, slot, opts, ended
 gvars == <<n, cls, slot, opts, ended>>
 
 U0 == -1322443957                      \* the unix epoch on the world's time axis (seconds relative to world.Epoch)
-Classes == <<"normal", "allequal", "pre1970", "span1970", "subsec", "presub">>
+Classes == <<"normal", "allequal", "pre1970", "span1970", "subsec", "presub", "zoned">>
 Nanos(s) == CASE s = 1 -> 1 [] s = 2 -> 2 [] OTHER -> 999999999
-TimeOf(c, s) == CASE c = "normal"   -> <<100 * s, 0>>
+TimeOf(c, s) == CASE c \in {"normal", "zoned"} -> <<100 * s, 0>>
                   [] c = "allequal" -> <<100, 0>>
                   [] c = "pre1970"  -> <<U0 - 1000 + 100 * s, 0>>
                   [] c = "span1970" -> (CASE s = 1 -> <<U0 - 100, 0>> [] s = 2 -> <<U0 - 1, 999999999>> [] OTHER -> <<U0 + 100, 0>>)
                   [] c = "subsec"   -> <<100, Nanos(s)>>
                   [] c = "presub"   -> <<U0 - 50, Nanos(s)>>
-Later(c) == CASE c \in {"normal", "allequal", "subsec"} -> <<500, 0>>                              \* after every slot of the class
+Later(c) == CASE c \in {"normal", "allequal", "subsec", "zoned"} -> <<500, 0>>                              \* after every slot of the class
               [] c = "span1970" -> <<U0 + 500, 0>> [] OTHER -> <<U0 - 10, 0>>
 
-NoOpts == [del |-> 0, created |-> "same", cons |-> "any", xdel |-> FALSE]
+NoOpts == [del |-> 0, created |-> "same", cons |-> "any", xdel |-> FALSE, zones |-> FALSE]
 RECURSIVE Sum(_)
 Sum(s) == IF s = <<>> THEN 0 ELSE Head(s) + Sum(Tail(s))
 Derived == LET k == Sum(slot) IN
            [del |-> LET d == (k + n) % (n + 2) IN IF d > n THEN 0 ELSE d,
-            created |-> IF k % 2 = 0 THEN "same" ELSE "dc",
+            created |-> IF k % 2 = 0 /\ cls # "zoned" THEN "same" ELSE "dc",
             cons |-> <<"any", "tag", "and">>[(k % 3) + 1],
-            xdel |-> (k % 4) < 2]
-Drawn == [del |-> RandomElement(0..n), created |-> RandomElement({"same", "dc"}),
-          cons |-> RandomElement({"any", "tag", "and"}), xdel |-> RandomElement(BOOLEAN)]
+            xdel |-> (k % 4) < 2,
+            zones |-> cls = "zoned" \/ (k % 5) < 2]
+Drawn == [del |-> RandomElement(0..n), created |-> IF cls = "zoned" THEN "dc" ELSE RandomElement({"same", "dc"}),
+          cons |-> RandomElement({"any", "tag", "and"}), xdel |-> RandomElement(BOOLEAN),
+          zones |-> cls = "zoned" \/ RandomElement(1..5) <= 2]
 
 Init == n = 0 /\ cls = "" /\ slot = <<>> /\ opts = NoOpts /\ ended = FALSE
 Start == /\ n = 0
@@ -64,7 +72,8 @@ Rec(i, k, c, pn, a, v, t, tgt) == [id |-> i, kind |-> k, claim |-> c, pn |-> pn,
 PnId(i) == i + 2
 TitleVal == 1
 TagVal == 2
-CreatedVal(s) == 10 + s
+ZoneOffsets == <<0, 120, 330>>                        \* minutes east of UTC: "Z", "+02:00", "+05:30"
+CreatedVal(s, z) == 10 + 3 * z + s                     \* value id of instant slot s written in zone variant z
 RECURSIVE ClaimsFrom(_, _)
 ClaimsFrom(i, next) ==          \* claims of permanodes i..n, ids from next
    IF i > n THEN <<>>
@@ -72,7 +81,7 @@ ClaimsFrom(i, next) ==          \* claims of permanodes i..n, ids from next
             title == <<Rec(next, "claim", "set", PnId(i), "title", TitleVal, t, 0)>>
             tag == IF i % 2 = 1 THEN <<Rec(next + 1, "claim", "add", PnId(i), "tag", TagVal, t, 0)>> ELSE <<>>
             k2 == next + 1 + Len(tag)
-            dc == IF opts.created = "dc" THEN <<Rec(k2, "claim", "set", PnId(i), "dateCreated", CreatedVal(4 - slot[i]), t, 0)>> ELSE <<>>
+            dc == IF opts.created = "dc" THEN <<Rec(k2, "claim", "set", PnId(i), "dateCreated", CreatedVal(4 - slot[i], IF opts.zones THEN i % 3 ELSE 0), t, 0)>> ELSE <<>>
             k3 == k2 + Len(dc)
             x == IF opts.xdel /\ i = 1 THEN <<Rec(k3, "claim", "set", PnId(i), "title", TitleVal, Later(cls), 0),
                                               Rec(k3 + 1, "delete", "", 0, "", 0, Later(cls), k3)>> ELSE <<>>
@@ -82,9 +91,10 @@ ClaimsFrom(i, next) ==          \* claims of permanodes i..n, ids from next
 Keys == <<Rec(1, "key", "", 0, "", 0, <<0, 0>>, 0), [Rec(2, "key", "", 0, "", 0, <<0, 0>>, 0) EXCEPT !.signer = 2]>>
 Permanodes == [i \in 1..n |-> Rec(PnId(i), "permanode", "", 0, "", 0, <<0, 0>>, 0)]
 Items == Keys \o Permanodes \o ClaimsFrom(1, n + 3)
-VTimes == [v \in 1..13 |-> IF v > 10 THEN TimeOf(cls, v - 10) ELSE <<0, 0>>]
+VTimes == [v \in 1..19 |-> IF v > 10 THEN TimeOf(cls, ((v - 11) % 3) + 1) ELSE <<0, 0>>]     \* instants
+VZones == [v \in 1..19 |-> IF v > 10 THEN ZoneOffsets[((v - 11) \div 3) + 1] ELSE 0]          \* how the string spells them
 
-Emit == ended => PrintT(<<"WORLD", ToJson([items |-> Items, n |-> n, cls |-> cls, slots |-> slot, opts |-> opts, vtimes |-> VTimes,
+Emit == ended => PrintT(<<"WORLD", ToJson([items |-> Items, n |-> n, cls |-> cls, slots |-> slot, opts |-> opts, vtimes |-> VTimes, vzones |-> VZones,
                                            cons |-> opts.cons, tagval |-> TagVal, sorts |-> <<"created", "mod">>,
                                            limits |-> [i \in 1..(n + 1) |-> i], pivots |-> [i \in 1..n |-> PnId(i)]])>>)
 =============================================================================
